@@ -31,6 +31,8 @@ class PersistentWorker(Worker):
         # even if the child is terminated before it had a chance to initialize itself
         self._counter = 0
         self._stop = False
+        # parent-side: set once next_result() has read the end-of-stream marker
+        self._results_ended = False
         super().__init__(target, **kwargs)
         self._closed = False
 
@@ -54,6 +56,11 @@ class PersistentWorker(Worker):
         raise NotImplementedError()
 
     def next_result(self, block=True, timeout=None):
+        if self._results_ended:
+            # nothing follows the end-of-stream marker: do not wait for more, even if the worker
+            # (e.g. the forwarding thread of a remote worker) is still alive for a moment
+            raise queue.Empty
+
         if not self.is_alive():
             ret = self.results_endpoint.get_nowait()
         else:
@@ -61,6 +68,7 @@ class PersistentWorker(Worker):
 
         unused_counter, flag, value, unused_wid = ret
         if not flag:
+            self._results_ended = True
             raise queue.Empty
         return value
 
